@@ -502,3 +502,48 @@ def alignments_window(ctx, py, rule="PY-WINDOW-OFFSET"):
                 k += 1
     ctx.ob(rule, "site-column|present", k >= 1, m.loc(fn), "%d site-column store(s)" % k)
     return n
+
+
+def takeset_atomic(ctx, P, rule="TAKESET-ATOMIC", floor=8):
+    from sa.cfg import CFG
+    from sa.expr import walk, callee, calls
+    ctx.rule(rule, "tsk_<table>_table_takeset_columns validates every input before it frees or takes any memory: no "
+                   "check_ragged_column / check_offsets call and no guard raising a TSK_ERR_* input error is reachable after "
+                   "tsk_<table>_table_free_columns(self).  A validation that fails after ownership of some buffers has moved makes "
+                   "the caller and the table free the same buffer (loading a corrupt file aborts instead of raising)")
+    tu = P.tus["tables"]
+    n = 0
+    for fn in tu.funcs.values():
+        if not re.fullmatch(r"tsk_\w+_table_takeset_columns", fn.name):
+            continue
+        cfg = CFG(fn)
+
+        def node_of(c):
+            for nd in cfg.nodes:
+                if nd.ast is not None and nd.kind in ("stmt", "cond") and any(x is c for x in walk(nd.ast)):
+                    return nd
+            return None
+        free = [c for c in calls(fn.body) if (callee(c) or "").endswith("_free_columns")]
+        if not free:
+            ctx.ob(rule, fn.name, False, tu.loc(fn.node), "no *_free_columns(self) call found")
+            continue
+        fnode = node_of(free[0])
+        after = cfg.reach([fnode]) - {fnode}
+        late = []
+        for nd in after:
+            if nd.ast is None:
+                continue
+            for x in walk(nd.ast):
+                if x.k == "CallExpr" and (callee(x) or "") in ("check_ragged_column", "check_offsets"):
+                    late.append((x, "%s(...)" % callee(x)))
+            if nd.kind == "stmt":
+                s = tu.src(nd.ast)
+                m = re.search(r"TSK_ERR_(BAD_PARAM_VALUE|BAD_OFFSET|COLUMN_OVERFLOW|\w*_OUT_OF_BOUNDS)", s)
+                if m:
+                    late.append((nd.ast, "raises %s" % m.group(0)))
+        n += 1
+        ctx.ob(rule, fn.name, not late, tu.loc(late[0][0]) if late else tu.loc(free[0]),
+               "all input validation precedes free_columns" if not late else
+               "%s after free_columns(self): buffers already taken are freed twice when it fails" % late[0][1])
+    ctx.floor(rule, floor)
+    return n
